@@ -113,7 +113,7 @@ def streams(tier, rng):
         L.into_duration_stream("c04-into-duration", rng, 120 if not big else 3000),
         L.skip_ext_stream("c04-e2e-attribute-limits", L.attr_limit_cases()),
         L.os_timer_stream("c04-os-timer-ceiling"),
-        L.skip_ext_stream("c04-e2e-skip-ext-time", L.skip_ext_cases(rng, 85 if not big else 300)),
+        L.skip_ext_stream("c04-e2e-skip-ext-time", L.skip_ext_cases(rng, 92 if not big else 300)),
         L.make_stream("c04-boundaries", "c04", aimed, hist=L.histogram(aimed),
                       describe="min/max at the elapsed time of a round, -1/0/+1 tick"),
         L.make_stream("c04-random-budgets", "c04", rand, hist=L.histogram(rand),
